@@ -58,6 +58,8 @@ def cases(tier, seed):
     for nm in ('numeric', 'numeric_like', 'blanks_only_difference'):
         out.append(('rename_%s_with_coarse_asset' % nm, dict(kind='rename', naming=nm, order=[0, 1, 2, 3], two_node=False, T=4, coarse=True)))
     out.append(('rename_and_order', dict(kind='rename', naming='numeric', order=[2, 0, 3, 1], two_node=True, T=3)))
+    out.append(('list_reordered_in_place_after_construction', dict(kind='rename', naming=None, order=[3, 2, 1, 0], two_node=False, T=2, reorder_after=True)))
+    out.append(('list_reordered_in_place_after_construction_renamed', dict(kind='rename', naming='numeric', order=[1, 0, 3, 2], two_node=True, T=2, reorder_after=True)))
     out.append(('many_variables_1x_x', dict(kind='rename', naming='many', order=[0, 1], two_node=False, T=12)))
     out.append(('many_steps_nodes_N1_N11', dict(kind='rename', naming='many_nodes', order=[0, 1, 2, 3], two_node=False, T=12, many='nodes')))
     for nm, names in (('substring', ('gen', 'gen_big')), ('numeric', ('1', '12')), ('plain', ('ga', 'gb'))):
@@ -98,7 +100,7 @@ def build_many_nodes(D, node_names, T):
     return pf, tg, shapes.prices_for(D, ['p', 'q'], T), {r: r for r in ('c1', 'm2', 'm3', 'c2')}, dict(n0=node_names[0], n1=node_names[1])
 
 
-def build(D, naming, order, two_node, T, wacc=False, coarse=False, many=None):
+def build(D, naming, order, two_node, T, wacc=False, coarse=False, many=None, reorder_after=False):
     """baseline roles are the symbol names; the asset / node names are nu(role)"""
     eao = lift.import_eao()
     if many == 'nodes':
@@ -118,7 +120,13 @@ def build(D, naming, order, two_node, T, wacc=False, coarse=False, many=None):
     assets = [c1, sto, tr, c2]
     for a, r in zip(assets, ROLES):
         a.name = an[r]
-    pf = eao.portfolio.Portfolio([assets[i] for i in order])
+    if reorder_after:
+        # the list object handed to Portfolio(...) is reordered IN PLACE afterwards (e.g. to build a second, permuted portfolio from it)
+        lst = list(assets)
+        pf = eao.portfolio.Portfolio(lst)
+        lst[:] = [assets[i] for i in order]
+    else:
+        pf = eao.portfolio.Portfolio([assets[i] for i in order])
     prices = shapes.prices_for(D, ['p', 'q'], T)
     return pf, tg, prices, an, nn
 
@@ -194,7 +202,7 @@ def run_case(case_id, tier, seed, kind, **kw):
 
     def bld(D):
         if kind == 'rename':
-            pf, tg, prices, an, nn = build(D, kw['naming'], kw['order'], kw['two_node'], T, kw.get('wacc', False), kw.get('coarse', False), kw.get('many'))
+            pf, tg, prices, an, nn = build(D, kw['naming'], kw['order'], kw['two_node'], T, kw.get('wacc', False), kw.get('coarse', False), kw.get('many'), kw.get('reorder_after', False))
             pf0, tg0, prices0, an0, nn0 = build(D, None, [0, 1, 2, 3], kw['two_node'], T, kw.get('wacc', False), kw.get('coarse', False), kw.get('many'))
             ren = renamer(an, nn)
             colmap = dict(assets=an, nodes=nn)
@@ -300,7 +308,7 @@ def observe(case, kwargs, env, rq):
     kind = kw.pop('kind')
     T = kw['T']
     if kind == 'rename':
-        pf, tg, prices, an, nn = build(D, kw['naming'], kw['order'], kw['two_node'], T, kw.get('wacc', False), kw.get('coarse', False), kw.get('many'))
+        pf, tg, prices, an, nn = build(D, kw['naming'], kw['order'], kw['two_node'], T, kw.get('wacc', False), kw.get('coarse', False), kw.get('many'), kw.get('reorder_after', False))
         pf0, tg0, prices0, _, _ = build(D, None, [0, 1, 2, 3], kw['two_node'], T, kw.get('wacc', False), kw.get('coarse', False), kw.get('many'))
     elif kind == 'inner':
         pf, tg, prices = build_inner(D, kw['which'], kw['order'], T)
